@@ -257,6 +257,15 @@ func (c *compiler) compileType(y *Type, parent Leafable, isUnion bool) error {
 		if _, isList := parent.(*LeafList); isList && !y.format.IsList() {
 			y.format = y.format.List()
 		}
+		// the type object is shared by every expansion of a grouping, default
+		// and units however are inherited by each leaf
+		if _, builtinType := val.TypeAsFormat(y.ident); !builtinType && !isUnion {
+			tdef, err := c.findTypedef(y, parent, y.ident)
+			if err != nil {
+				return err
+			}
+			inheritFromTypedef(parent, tdef)
+		}
 		return nil
 	}
 	var builtinType bool
@@ -272,14 +281,7 @@ func (c *compiler) compileType(y *Type, parent Leafable, isUnion bool) error {
 		tdef.dtype.mixin(y)
 
 		if !isUnion {
-			if !parent.HasDefault() {
-				if tdef.HasDefault() {
-					parent.setDefaultValue(tdef.DefaultValue())
-				}
-			}
-			if parent.Units() == "" {
-				parent.setUnits(tdef.Units())
-			}
+			inheritFromTypedef(parent, tdef)
 		}
 	}
 
